@@ -161,7 +161,7 @@ func meet(o *task) {
 }
 
 //go:norace
-func curTask() *task { return cur }
+func curTask() *task { return me() }
 
 //go:norace
 func aborting(t *task) bool { return t == nil || t.abort }
@@ -284,8 +284,8 @@ func sendDirect[T any](t *task, ch chan<- T, sv reflect.Value, p uintptr, v T) b
 
 // ChanClose replaces close(ch).
 func ChanClose[T any](ch chan<- T, site string) {
+	t := curTask() // identity first: after the real close a goroutine outside the run may already be racing with the next run
 	close(ch)
-	t := curTask()
 	if t == nil {
 		return
 	}
